@@ -14,7 +14,7 @@ LOG=${SEED_LOG:-$SD/confirm.log}
 git -C /repo worktree add -q "$WT" HEAD || exit 2
 cleanup() { git -C /repo worktree remove --force "$WT" >/dev/null 2>&1; rm -rf "$WT"; }
 trap cleanup EXIT
-cp "$SD/$DEMO_SRC" "$WT/$DEST" || { echo "no demo"; exit 2; }
+mkdir -p "$(dirname "$WT/$DEST")"; cp "$SD/$DEMO_SRC" "$WT/$DEST" || { echo "no demo"; exit 2; }
 echo "== demo on clean tree (must pass)" | tee -a "$LOG"
 (cd "$WT" && timeout 1500 go test -vet=off -count=1 -run "$RUN" "$PKG") >>"$LOG" 2>&1; R_CLEAN=$?
 echo "   exit $R_CLEAN" | tee -a "$LOG"
